@@ -101,7 +101,13 @@ fn check_walk(ctx: &Ctx, ty: &KesType, seed: &[u8; 32], msgs: &[Vec<u8>], w: &Wa
             }
         }
         if let Some((after, per)) = &st.after_failed_update {
-            if after != &st.buf || *per != st.period {
+            // the refused update is not an evolution: the key has still evolved
+            // t times and must go on reporting period t (statement: "a key evolved
+            // t times reports period t")
+            if *per != st.period {
+                ctx.violation(format!("{fam}:period-after-refused-update"), format!("{} evolved {t} times reports period {per} after the refused update (expected {})", ty.name, st.period), base(t));
+            }
+            if after != &st.buf {
                 s.failed_update_changed_buffer += 1;
             }
         }
@@ -210,7 +216,7 @@ pub fn run(ctx: Ctx) -> ! {
         ctx.note(format!("diagnostic: {} of {} keys restored with from_bytes(as_bytes()) behaved differently from the evolved key", tot.resume_mismatch, tot.resumed));
     }
     if tot.failed_update_changed_buffer > 0 {
-        ctx.note(format!("diagnostic: the refused update changed the key buffer or period in {} walks", tot.failed_update_changed_buffer));
+        ctx.note(format!("diagnostic: the refused update changed the key buffer in {} walks", tot.failed_update_changed_buffer));
     }
     let cov = cov! {
         "states" => tot.states,
